@@ -501,7 +501,15 @@ pub fn plan(seed: u64, k: u64, corpus_len: usize, thorough: bool) -> (Plan, Rng)
 
 pub fn run(seed: u64, k: u64, corpus: &std::sync::Arc<Vec<(String, String)>>, thorough: bool, blackbox: Option<&str>) -> RunOut {
   let (pl, mut rng) = plan(seed, k, corpus.len(), thorough);
-  let (name, text) = corpus[pl.program].clone();
+  // beyond the corpus walk, one run in three compiles a generated program (W1's valid statements
+  // batched into one text, assignment templates, relational programs) instead of a harvested one
+  let (name, text) = if (k as usize) >= corpus.len() && rng.chance(1, 3) {
+    match rng.below(3) {
+      0 => ("generated-session".to_string(), crate::w2::generated_program(&mut rng, true)),
+      1 => crate::w2::template_program(&mut rng),
+      _ => crate::w2::relational_program(&mut rng),
+    }
+  } else { corpus[pl.program].clone() };
   let mut counters = BTreeMap::new();
   let mut sets: BTreeMap<String, Vec<String>> = BTreeMap::new();
   let mut dig = Digest::new();
